@@ -176,10 +176,48 @@ def L1x(tier, scheds=('fwd', 'bwd'), balances=(True, False)):
                         yield Scenario(sched, bal, anchor, mk_tasks(par, attrs), list(links), layer='L1x')
 
 
+L1Y_SHAPES = [
+    (None, 0, 1, None, None),      # three levels and two further roots
+    (None, 0, 0, 0, None),         # three siblings and an outside root
+    (None, None, 1, 2, None),      # a chain of nesting in the middle, roots on both sides
+    (None, None, 1, None, None),   # root, summary with one leaf, two more roots
+]
+
+
+def L1y(tier, scheds=('fwd', 'bwd'), balances=(True, False)):
+    """Five tasks: three selected hierarchies x all link sets of <= 2 links plus all 3-link chains; one resource per leaf and a
+    shared one; also run with string ids. (Small-scope complement: 3+ levels, 3 siblings, chains of 3 links.)"""
+    for par in L1Y_SHAPES:
+        n = len(par)
+        cand = link_candidates(par)
+        sets = [ls for ls in link_sets(par, 2) if ls]
+        chains = [(a, b, c) for a in cand for b in cand for c in cand if a[1] == b[0] and b[1] == c[0] and len({a, b, c}) == 3]
+        if tier == 'quick':
+            sets = sets[::3]
+            chains = chains[::2]
+        triples = []
+        if par == (None, None, 1, None, None):
+            # a successor before the summary, the summary waiting for two later roots: every set of three links
+            triples = [t for t in itertools.combinations(cand, 3) if not any((b, a) in t for a, b in t)]
+        lv = [i for i in range(n) if is_leaf(par, i)]
+        for links in sets + chains + triples:
+            if direct_cycle(n, links) or leaf_cycle(par, links):
+                continue
+            full = tier == 'thorough' or links not in triples
+            for rpat in (('A', 'each') if full else ('each',)):
+                for idkind in (('int', 'str') if full else ('int',)):
+                    attrs = {i: {'estimate': 4 + 4 * (k % 3), 'resource': 'A' if rpat == 'A' else 'R%d' % i} for k, i in enumerate(lv)}
+                    tasks = [((i + 1) if idkind == 'int' else 'task-%s' % 'abcde'[i], par[i], dict(attrs.get(i, {}))) for i in range(n)]
+                    for sched in scheds:
+                        for bal in (balances if rpat == 'A' else balances[:1]):
+                            anchor = MON if sched == 'fwd' else MON + 21 * DAY
+                            yield Scenario(sched, bal, anchor, tasks, list(links), layer='L1y')
+
+
 def attr_menu(S, sched):
     m = [
         {}, {'estimate': 0}, {'estimate': 0.5}, {'estimate': 4}, {'estimate': 12}, {'estimate': 2.5},
-        {'estimate': 4, 'spent': 0}, {'estimate': 12, 'spent': 3}, {'estimate': 4, 'spent': 6},
+        {'estimate': 4, 'spent': 0}, {'estimate': 12, 'spent': 3}, {'estimate': 4, 'spent': 6}, {'estimate': 4, 'spent': 4},
         {'milestone': True}, {'estimate': 4, 'min_start': S + 2 * DAY}, {'estimate': 4, 'min_start': S - 2 * DAY},
     ]
     if sched == 'fwd':
@@ -220,11 +258,11 @@ def L2(tier, scheds=('fwd', 'bwd')):
                     combos = list(itertools.product(range(len(menu)), repeat=len(lv)))
                     cals = ['none']
                 else:
-                    red = [0, 3, 7, 9, 10] + ([12, 14, 16] if sched == 'fwd' else [])
+                    red = [0, 3, 7, 9, 10, 11] + ([13, 15, 17] if sched == 'fwd' else [])
                     combos = list(itertools.product(red, repeat=len(lv)))
                     cals = CAL_MENU if tier == 'thorough' else ['none', 'sparse', 'direct']
                 if tier == 'quick' and len(lv) == 2 and si < 2:
-                    red = [0, 1, 3, 7, 8, 9, 10, 11] + ([12, 13, 14, 15, 16, 17] if sched == 'fwd' else [])
+                    red = [0, 1, 3, 7, 8, 9, 10, 11, 12] + ([13, 14, 15, 16, 17, 18] if sched == 'fwd' else [])
                     combos = list(itertools.product(red, repeat=len(lv)))
                 for combo in combos:
                     attrs = {i: dict(menu[c], resource='A') for i, c in zip(lv, combo)}
@@ -265,7 +303,8 @@ L3_PATTERNS = {
 
 def L3(tier, scheds=('fwd', 'bwd'), balances=(True, False), cals=None, ests=None, ks=None, decimal=False):
     """Competition layer: flat tasks on one resource."""
-    starts = [MON, MON + H9, MON + 5 * DAY, MON + 2 * DAY]
+    FRI = datetime(2024, 2, 23, 16, 0)  # a Friday afternoon; the following days cross the leap day and the month boundary
+    starts = [MON, MON + H9, MON + 5 * DAY, MON + 2 * DAY, FRI]
     if decimal:
         cals = cals or ['dec03', 'dec07']
         ests_all = [0.1, 0.2, 0.3, 0.7]
@@ -281,12 +320,66 @@ def L3(tier, scheds=('fwd', 'bwd'), balances=(True, False), cals=None, ests=None
             for est in itertools.product(e, repeat=k):
                 attrs = {i: {'estimate': est[i], 'resource': 'A'} for i in range(k)}
                 for cal in cals:
-                    for S0 in (starts if (k == 2 or tier == 'thorough') else starts[:2]):
+                    for S0 in (starts if (k == 2 or tier == 'thorough') else starts[:2] + starts[4:]):
                         for sched in scheds:
                             S = S0 if sched == 'fwd' else S0 + 21 * DAY
                             for bal in balances:
                                 yield Scenario(sched, bal, S, mk_tasks((None,) * k, attrs), list(pat),
                                                cals={'A': cal}, layer='L7' if decimal else 'L3')
+
+
+def L3y(tier, scheds=('fwd', 'bwd'), balances=(True, False)):
+    """Year boundaries: days whose ISO week-year differs from the calendar year (29-31 Dec / 1-3 Jan)."""
+    anchors = {'fwd': [datetime(2030, 12, 30), datetime(2026, 12, 31, 9, 0), datetime(2027, 1, 1)],
+               'bwd': [datetime(2031, 1, 1), datetime(2027, 1, 4), datetime(2031, 1, 3, 15, 0)]}
+    for k in (2, 3):
+        for pat in L3_PATTERNS[k][:3]:
+            for est in ((4, 8, 4), (8, 8, 8), (12, 4, 2.5)):
+                attrs = {i: {'estimate': est[i], 'resource': 'A'} for i in range(k)}
+                for cal in ('none', 'wk7'):
+                    for sched in scheds:
+                        for S in anchors[sched]:
+                            for bal in balances:
+                                yield Scenario(sched, bal, S, mk_tasks((None,) * k, attrs), list(pat), cals={'A': cal},
+                                               layer='L7y' if cal == 'wk7' else 'L3y')
+
+
+def L7s(tier, scheds=('fwd', 'bwd')):
+    """Spent work booked in minutes (thirds of an hour): roll-ups and remaining work with more than two decimals."""
+    third = 1 / 3
+    for par, links in (((None, 0, 0), ()), ((None, 0, 1, 1), ()), ((None, 0, 0, None), ((0, 3),))):
+        lv = [i for i in range(len(par)) if is_leaf(par, i)]
+        for spents in itertools.product((third, 2 * third, 0.125, 2.25), repeat=min(2, len(lv))):
+            attrs = {i: {'estimate': 4, 'spent': spents[k % len(spents)], 'resource': 'A'} for k, i in enumerate(lv)}
+            for sched in scheds:
+                A = MON if sched == 'fwd' else MON + 21 * DAY
+                for bal in (True, False):
+                    for dflt in (0, 4):
+                        yield Scenario(sched, bal, A, mk_tasks(par, attrs), list(links), dflt=dflt, layer='L7s')
+
+
+def L2c(tier):
+    """Forward inputs in which summaries carry recorded dates that are CONSISTENT with their children (end == latest child end,
+    every child has an end) although a nested summary still has open work: a plan imported with stale roll-ups."""
+    S = MON
+    past = [(S - 20 * DAY, S - 18 * DAY), (S - 25 * DAY, S - 24 * DAY)]
+    for clock in (S - 30 * DAY + 29 * DAY, S + 2 * DAY):
+        # Release(0) > Backend(1) > API(2, open leaf); Docs(3, finished leaf) under Release; Rollout(4) depends on Release / Backend
+        for dep_on in (0, 1):
+            for open_est in (12, 40):
+                ds, de = past[0]
+                tasks = [
+                    (1, None, {'start': ds, 'end': de, 'estimate': 9, 'spent': 9}),
+                    (2, 0, {'start': ds, 'end': de}),
+                    (3, 1, {'estimate': open_est, 'resource': 'A'}),
+                    (4, 0, {'estimate': 4, 'spent': 4, 'start': ds, 'end': de, 'resource': 'B'}),
+                    (5, None, {'estimate': 8, 'resource': 'C'}),
+                ]
+                for bal in (True, False):
+                    yield Scenario('fwd', bal, S, tasks, [(dep_on, 4)], clock=clock, layer='L2c')
+                    # the dependent task inside another summary (inherited prerequisite)
+                    tasks2 = tasks[:4] + [(5, None, {}), (6, 4, {'estimate': 8, 'resource': 'C'})]
+                    yield Scenario('fwd', bal, S, tasks2, [(dep_on, 4)], clock=clock, layer='L2c')
 
 
 def L3long(tier, scheds=('fwd', 'bwd'), balances=(True, False)):
@@ -333,6 +426,14 @@ def L5(tier):
                 attrs = {i: {'estimate': 4, 'resource': 'A'} for i in lv}
                 yield Scenario(sched, True, A, mk_tasks(par, attrs), [], ext=[(50, dict(eattrs))],
                                ext_links=[(('e', 0), ('x', tgt))], layer='L5'), 'ext-pred-undated'
+    # two broken external links whose ids cannot be compared with each other (diagnosis must still be a RuntimeError)
+    for sched in ('fwd', 'bwd'):
+        A = S if sched == 'fwd' else S + 21 * DAY
+        for ids in ((7, 'x'), ('REQ-7', 3), (7, 8)):
+            tasks = [(1, None, {'estimate': 4, 'resource': 'A'}), ('t2', None, {'estimate': 4, 'resource': 'A'})]
+            for links in ([(('e', 0), ('x', 0)), (('e', 1), ('x', 0))], [(('e', 0), ('x', 0)), (('e', 1), ('x', 1))]):
+                yield Scenario(sched, True, A, tasks, [], ext=[(ids[0], {}), (ids[1], {'start': S - 10 * DAY})],
+                               ext_links=links, layer='L5'), 'ext-pred-undated'
     # forward task with a fixed end after the clock
     for clock in (S - 30 * DAY, S, S + DAY):
         for par, i in (((None,), 0), ((None, 0), 1), ((None, None), 1)):
